@@ -21,3 +21,11 @@ Definition prop_msg (c : Z * bool * list (Z * Z) * Z * res (Z * bool * Z * Z)) :
        end.
 Definition pf_msg := Eval vm_compute in failing prop_msg cases_msg.
 Print pf_msg.
+
+(* the same property at the call sites: whatever the daemon hands to
+   sendMessage / broadcastMessage fits MaxOutgoingMessageLength (>= 12) — independently
+   of MaxIncomingMessageLength — and holds the longest fitting prefix of what was requested *)
+Definition pf_site := Eval vm_compute in
+  failing (fun c : Z * list (Z * Z) * Z * Z * res (Z * bool * Z * Z) =>
+    let '(kc, rl, max_out, max_in, obs) := c in prop_msg (kc, false, rl, max_out, obs)) cases_site.
+Print pf_site.
